@@ -9,6 +9,7 @@ import (
 
 	"github.com/glebziz/fs_db"
 	"github.com/glebziz/fs_db/internal/model"
+	mcore "github.com/glebziz/fs_db/internal/model/core"
 	"github.com/glebziz/fs_db/internal/model/sequence"
 	txrepo "github.com/glebziz/fs_db/internal/repository/transaction"
 	"github.com/glebziz/fs_db/internal/usecase/cleaner"
@@ -435,4 +436,46 @@ func VerifH03d() {
 		}
 	}
 	nd.Reach("H03d.end")
+}
+
+// VerifH02e: two concurrent writers. From an arbitrary invariant state two goroutines call
+// core.Store at the same time (the same or different actors and keys); whatever the interleaving
+// (up to one preemption, the new goroutine may run first), afterwards every version list - the
+// actors' and the all-store's - is in strictly increasing sequence order with its search mirror
+// in step: the order the lookups of C02/C18 rely on.
+func VerifH02e() {
+	s := verifBuildState(2)
+	o1, o2 := nd.Choice("writer1", 3), nd.Choice("writer2", 3)
+	if (o1 != 0 && !s.begun[o1]) || (o2 != 0 && !s.begun[o2]) {
+		nd.Assume(false)
+	}
+	if o1 != 0 && o1 == o2 {
+		nd.Assume(false) // a transaction is used by one goroutine at a time
+	}
+	k1, k2 := verifKeys[nd.Choice("key1", 2)], verifKeys[nd.Choice("key2", 2)]
+	var e1, e2 error
+	nd.SpawnRunsFirst(true)
+	nd.SetPreemptionBound(1)
+	go func() { e2 = s.u.Store(s.ctx, model.File{Key: k2, TxId: verifTxIds[o2], ContentId: "w2"}) }()
+	e1 = s.u.Store(s.ctx, model.File{Key: k1, TxId: verifTxIds[o1], ContentId: "w1"})
+	nd.JoinAll()
+	nd.SetPreemptionBound(0)
+	nd.SpawnRunsFirst(false)
+	nd.Assert(e1 == nil && e2 == nil, "H02e.store-ok")
+	check := func(tx *mcore.Transaction, id string) {
+		for _, k := range verifKeys {
+			got, shape := mcore.VerifDump(tx, k)
+			nd.Assert(shape, id+".list-shape-or-mirror")
+			for i := 1; i < len(got); i++ {
+				nd.Assert(got[i-1].Seq < got[i].Seq, id+".sequence-order")
+			}
+		}
+	}
+	for t := 0; t < 3; t++ {
+		if tx, ok := s.u.txStore.Get(verifTxIds[t]); ok {
+			check(tx, "H02e.list")
+		}
+	}
+	check(&s.u.allStore, "H02e.all-store")
+	nd.Reach("H02e.end")
 }
